@@ -517,12 +517,7 @@ def _eval_level(prog, provided, *, path, fail, responses, top_levels, stop) -> R
     return R
 
 
-class _Emit:
-    def __repr__(self):
-        return "<EMIT>"
-
-
-EMIT = _Emit()
+EMIT = rt.EMIT
 
 
 def _eval_sub(ns, args, R: Ref, path, fail, responses, levels, outs, early) -> bool:
